@@ -28,7 +28,7 @@ static long cur_case;
 static char ctx[1400];
 static bool have_native6;
 
-enum beh { B_ACCEPT, B_REFUSE, B_NOANSWER };
+enum beh { B_ACCEPT, B_REFUSE, B_NOANSWER, B_UNREACH };      /* B_UNREACH: connect() fails at once with ENETUNREACH (the limited broadcast address) */
 static const char beh_ch[] = "ARN";
 enum alg { A_SINGLE, A_SEQ, A_HAPPY };
 static const char *const alg_name[] = { "single", "sequential", "happy_eyeballs" };
@@ -97,6 +97,13 @@ static void gen_case(struct ccase *c, long idx, vrng *r)
         if (d->beh == B_NOANSWER) nna++;
     }
     if (c->n > 8 && vrnd_p(r, 60)) c->c[vrnd_n(r, (uint32_t)c->n)].beh = B_ACCEPT;     /* possibly beyond the 32nd entry */
+    /* an address to which connect() fails synchronously; sometimes as the last candidate right after one that does not answer, so that the
+     * attempt that times out is followed, within the same processing step, by the attempt that decides the errno */
+    if (!c->local_addr && c->n >= 2 && c->n <= 8 && vrnd_p(r, 12)) {
+        int u = c->n - 1; struct cand *d = &c->c[u];
+        d->v6 = false; snprintf(d->ip, sizeof d->ip, "255.255.255.255"); d->beh = B_UNREACH;
+        if (vrnd_p(r, 60) && !c->c[u - 1].v6 && strcmp(c->c[u - 1].ip, "::1")) { bool acc_before = false; for (int i = 0; i < u; i++) if (c->c[i].beh == B_ACCEPT) acc_before = true; if (!acc_before && nna < 3) c->c[u - 1].beh = B_NOANSWER; }
+    }
     /* directed shapes: one family fails at once while the other is still waiting for an answer and succeeds (or fails) late */
     if (!c->local_addr && have_native6 && vrnd_p(r, 18)) {
         static const char *const shapes[] = { "6N 4R 6A", "4N 6R 4A", "6N 4R 4R 6N 6A", "6N 4R 6R", "4N 6R 4R", "6N 4N 6A 4A", "6R 4N 6R 4A", "6N 4A", "6A 4N" };
@@ -324,9 +331,9 @@ static void one_case(long idx, void *arg)
         int okerr[2] = { 0, 0 }; int ne = 0;
         int l4 = -1, l6 = -1; for (int i = 0; i < neff; i++) { if (c.c[i].v6) l6 = i; else l4 = i; }
         int lasts[2] = { c.alg == A_HAPPY ? l4 : neff - 1, c.alg == A_HAPPY ? l6 : -1 };
-        for (int k = 0; k < 2; k++) if (lasts[k] >= 0) okerr[ne++] = c.c[lasts[k]].beh == B_REFUSE ? ECONNREFUSED : ETIMEDOUT;
+        for (int k = 0; k < 2; k++) if (lasts[k] >= 0) okerr[ne++] = c.c[lasts[k]].beh == B_REFUSE ? ECONNREFUSED : c.c[lasts[k]].beh == B_UNREACH ? ENETUNREACH : ETIMEDOUT;
         bool okE = false; for (int k = 0; k < ne; k++) if (outcome_errno == okerr[k]) okE = true;
-        if (!okE) { cv("failure-errno", &c, "%s reported errno %d (%s); the last failed attempt %s", observer, outcome_errno, outcome_errno > 0 ? strerror(outcome_errno) : "close", okerr[0] == ECONNREFUSED ? "was refused (ECONNREFUSED)" : "timed out (ETIMEDOUT)"); goto out; }
+        if (!okE) { cv("failure-errno", &c, "%s reported errno %d (%s); the last failed attempt %s", observer, outcome_errno, outcome_errno > 0 ? strerror(outcome_errno) : "close", okerr[0] == ECONNREFUSED ? "was refused (ECONNREFUSED)" : okerr[0] == ENETUNREACH ? "failed at once (ENETUNREACH)" : "timed out (ETIMEDOUT)"); goto out; }
         int nna_all = 0; for (int i = 0; i < neff; i++) if (c.c[i].beh == B_NOANSWER) nna_all++;
         double bound = (nna_all * c.connect_timeout + (c.deliver == VDNS_AFTER_MS ? c.after / 1000.0 : 0) + 0.2) * 1.5 + 1.0 + late_look;
         if (t_out > bound) { cv("failure-late", &c, "failure surfaced after %.2f s; bound %.2f s", t_out, bound); goto out; }
